@@ -93,7 +93,10 @@ def _write_xml_element_to_file(file, xml_element, indent: str):
 
 
 def _write_xml_string_to_file(file, xml_string: str, indent: str):
-    result = textwrap.indent(xml_string, indent)
+    # only "\n" separates the lines of the serialized xml, other characters str.splitlines() regards as line
+    # boundaries (e.g. U+2028) can be part of the content and must not be followed by an indentation
+    lines = xml_string.split("\n")
+    result = "\n".join(indent + line if line.strip() else line for line in lines)
     file.write(result.encode("utf-8"))
 
 
